@@ -99,6 +99,19 @@ def make_ext_obj(code, spec, mode, spec0=None, parent_hdr=None):
     return e
 
 
+def edit_ext_in_place(e, code, spec):
+    """edit the runtime object behind extension `e` into `spec` (never reads .content)"""
+    obj = e.get_content()
+    if code == 2:
+        obj.PatientID = spec[0]
+        if spec[1]:
+            obj.PatientName = spec[1]
+        elif 'PatientName' in obj:
+            del obj.PatientName
+    else:
+        obj.matrix = cifti_obj(spec).matrix
+
+
 def gen_content(rng, code, n):
     if code == 2:
         return dicom_bytes_of(dicom_spec(rng))
@@ -143,7 +156,7 @@ def gen_cases(chk):
                 mk = dicom_spec if code == 2 else cifti_spec
                 by = dicom_bytes_of if code == 2 else cifti_bytes_of
                 spec, spec0 = mk(rng), mk(rng)
-                mode = rng.choice(['object', 'edited'])
+                mode = rng.choice(['object', 'edited', 'resaved'])
                 objs[j] = (spec, mode, spec0)
                 exts.append((code, by(spec)))
             elif code == 2 and rng.random() < 0.3:
@@ -183,13 +196,30 @@ def impl_run(case):
     img = cls(data, np.eye(4), header=hdr)
     assert img.header.endianness == endian
     objs = case.get('objs') or {}
+    later = []
     for j, (code, content) in enumerate(case['exts']):
         if j in objs or str(j) in objs:
             spec, mode, spec0 = objs.get(j) or objs.get(str(j))
-            img.header.extensions.append(make_ext_obj(code, tuple(spec), mode, tuple(spec0), parent_hdr=img.header))
+            if mode == 'resaved':
+                # history: object-backed extension saved once as spec0, edited in place into spec,
+                # saved again (the save under test); nothing reads .content in between
+                e = make_ext_obj(code, tuple(spec0), 'object', tuple(spec0), parent_hdr=img.header)
+                later.append((e, code, tuple(spec)))
+                img.header.extensions.append(e)
+            else:
+                img.header.extensions.append(make_ext_obj(code, tuple(spec), mode, tuple(spec0), parent_hdr=img.header))
         else:
             img.header.extensions.append(make_ext(code, content))
     out = {}
+    if later:
+        fm0 = {'image': FileHolder(fileobj=io.BytesIO()), 'header': FileHolder(fileobj=io.BytesIO())}
+        if case['single']:
+            fm0['header'] = fm0['image']
+        with warnings.catch_warnings():
+            warnings.simplefilter('ignore')
+            img.to_file_map(fm0)
+        for e, code, spec in later:
+            edit_ext_in_place(e, code, spec)
     if case['vox']:
         img.header.set_data_offset(case['vox'])
     fm = {'image': FileHolder(fileobj=io.BytesIO()), 'header': FileHolder(fileobj=io.BytesIO())}
